@@ -51,17 +51,17 @@ type invokeState struct {
 type Monitor struct {
 	w *World
 	Model
-	anyFailure bool // some user function returned an error or panicked earlier in this history
-	role      map[int]interface{} // fn id -> *Reg | *Dec
-	okExecs   map[int]int
-	viol      []Violation
-	seen      map[string]bool
-	stats     map[string]int
-	situ      map[string]int // resolution situations observed
-	pend      *pendingCall
-	inv       *invokeState
-	cbPending map[int]*ExecRec
-	invInfos  map[int]*invInfo
+	anyFailure bool                // some user function returned an error or panicked earlier in this history
+	role       map[int]interface{} // fn id -> *Reg | *Dec
+	okExecs    map[int]int
+	viol       []Violation
+	seen       map[string]bool
+	stats      map[string]int
+	situ       map[string]int // resolution situations observed
+	pend       *pendingCall
+	inv        *invokeState
+	cbPending  map[int]*ExecRec
+	invInfos   map[int]*invInfo
 	// reentrant: a user function has called back into the container. The spec state does not model
 	// nested resolution; from then on only the rules that need no model stay armed.
 	reentrant  bool
